@@ -9,7 +9,7 @@
 From Coq Require Import ZArith.
 From RsdnsModel Require Import Base GenConst GenCursor GenTypes GenTracker GenReader GenSpec Cursor Names Labels Header Tracker RData Reader.
 From RsdnsModel.Spec Require Import WireName LinearPass.
-From RsdnsModel.Proofs Require Import CursorSafe ListN SpecExec ParseSpec TrackerRefine ReaderTotal.
+From RsdnsModel.Proofs Require Import CursorSafe ListN Window RoundTrip SpecExec ParseSpec TrackerRefine ReaderTotal.
 From Coq Require Import ZifyBool ZifyN ZifyNat.
 Open Scope N_scope.
 
@@ -227,6 +227,141 @@ Section RR.
     destruct (seek_step nq an ns ar P Hc1 Hc2 Hc3 Hc4 P_bounds _ _ _ s Hi Hs) as [Hyes _]. destruct (Hyes Hk) as [Eo Hi'].
     unfold rd_seek. rewrite Hd, Eo. eexists. split; [reflexivity|].
     split; [apply whole_set_pos; exact Hw|]. split; [reflexivity|]. split; [exact Hi'|reflexivity].
+  Qed.
+
+  (* ---------------------------------------------------------------- all flavours of the calls *)
+  (* questions: single or not, borrowed or owned *)
+  Lemma step_question_any single as_ref r idx hw it : RState r idx hw -> getN qs idx = Some it ->
+    (single = true -> idx + 1 = nq) -> (as_ref = false -> a_fits255 it = true) ->
+    exists r' o, rd_question msg single as_ref r = (r', Ok o) /\ RState r' (idx + 1) (idx + 1) /\
+      if as_ref then o = OQuestionRef (r_cur r) (a_type it) (a_class it)
+      else exists ls e, spec_name msg (a_start it) = SAccept ls e /\ o = OQuestion (join_labels (map snd ls)) (a_type it) (a_class it).
+  Proof.
+    intros (Hw & Hp & Hi & Hd) Hg Hsingle Hfits. pose proof (getN_lt _ _ _ Hg) as Hlt0. assert (Hlt : idx < nq) by lia.
+    destruct (P_question idx it Hg) as (P1 & P2 & P3).
+    unfold rd_question. rewrite Hd.
+    destruct (counts_spec nq an ns ar P Hc1 Hc2 Hc3 Hc4 P_bounds _ _ _ Hi) as (Cq & _). rewrite Cq.
+    assert (Eq : (if single then q_not_single (nq - N.min idx nq) else q_none_left (nq - N.min idx nq)) = false).
+    { destruct single; [specialize (Hsingle eq_refl); unfold q_not_single|unfold q_none_left]; lia. }
+    rewrite Eq. unfold run.
+    destruct (question_step nq an ns ar P Hc1 Hc2 Hc3 Hc4 P_bounds _ _ _ Hi Hlt) as (tr' & Et & Hi').
+    destruct as_ref.
+    - pose proof (question_ref_is_question_at msg (r_cur r) Hw) as Hqr. rewrite Hp, P3 in Hqr. destruct Hqr as [Hqr _].
+      rewrite Hqr. unfold after_question. cbn [r_tr with_cur r_cur pos c_set_pos]. rewrite <- P2, Et.
+      eexists. eexists. split; [reflexivity|]. split; [|reflexivity].
+      split; [apply whole_set_pos; exact Hw|]. split; [reflexivity|]. split; [exact Hi'|exact Hd].
+    - pose proof (question_is_question_at msg (r_cur r) Hw) as Hqr. rewrite Hp, P3, (Hfits eq_refl) in Hqr.
+      destruct Hqr as (ls & e & Es & Hqr). rewrite Hqr. unfold after_question. cbn [r_tr with_cur r_cur pos c_set_pos]. rewrite <- P2, Et.
+      eexists. eexists. split; [reflexivity|]. split.
+      + split; [apply whole_set_pos; exact Hw|]. split; [reflexivity|]. split; [exact Hi'|exact Hd].
+      + exists ls, e. rewrite <- P1. split; [exact Es|reflexivity].
+  Qed.
+
+  (* an owned question whose name does not fit 255 octets: the call fails, the reader is exhausted *)
+  Lemma fail_question_owned single r idx hw it : RState r idx hw -> getN qs idx = Some it ->
+    (single = true -> idx + 1 = nq) -> a_fits255 it = false ->
+    exists r' e, rd_question msg single false r = (r', Err e) /\ r_done r' = true.
+  Proof.
+    intros (Hw & Hp & Hi & Hd) Hg Hsingle Hfits. pose proof (getN_lt _ _ _ Hg) as Hlt0. assert (Hlt : idx < nq) by lia.
+    destruct (P_question idx it Hg) as (P1 & P2 & P3).
+    unfold rd_question. rewrite Hd.
+    destruct (counts_spec nq an ns ar P Hc1 Hc2 Hc3 Hc4 P_bounds _ _ _ Hi) as (Cq & _). rewrite Cq.
+    assert (Eq : (if single then q_not_single (nq - N.min idx nq) else q_none_left (nq - N.min idx nq)) = false).
+    { destruct single; [specialize (Hsingle eq_refl); unfold q_not_single|unfold q_none_left]; lia. }
+    rewrite Eq. unfold run.
+    pose proof (question_is_question_at msg (r_cur r) Hw) as Hqr. rewrite Hp, P3, Hfits in Hqr.
+    destruct Hqr as (c' & e & Hqr). rewrite Hqr. unfold after_question. eexists. exists e. split; reflexivity.
+  Qed.
+
+  (* records: the state between the header call and the data call *)
+  Definition mk_of (idx : N) (it : aitem) : marker :=
+    mkMarker (P idx) (a_type_off it) (a_type it) (a_class it) (a_ttl it) (a_rdlen it) (section_of (lin nq an ns ar) (idx - nq)).
+  Definition RMid (r1 : reader) (idx hw : N) (it : aitem) : Prop :=
+    whole msg (r_cur r1) /\ pos (r_cur r1) = a_type_off it + 10 /\ r_done r1 = false /\
+    a_type_off it + 10 + a_rdlen it = P (idx + 1) /\ P (idx + 1) <= lenN msg /\
+    exists tr', section_read (r_tr r1) (section_of (lin nq an ns ar) (idx - nq)) (P (idx + 1)) = Ok tr' /\
+                InvT tr' (idx + 1) (N.max hw (idx + 1)).
+
+  (* the three header flavours return the prescribed header and lead to RMid *)
+  Lemma step_header r idx hw it : RState r idx hw -> nq <= idx -> getN rs (idx - nq) = Some it ->
+    (exists r1, rd_marker msg r = (r1, Ok (OMarker (mk_of idx it))) /\ RMid r1 idx hw it) /\
+    (exists r1, rd_header_ref msg r = (r1, Ok (OHeaderRef (r_cur r) (mk_of idx it))) /\ RMid r1 idx hw it) /\
+    (forall nk, a_fits255 it = true ->
+       exists r1 ls e, spec_name msg (a_start it) = SAccept ls e /\
+         rd_header_n msg nk r = (r1, Ok (OHeaderN (join_labels (map snd ls)) (mk_of idx it))) /\ RMid r1 idx hw it) /\
+    (forall nk, a_fits255 it = false -> exists r1 e, rd_header_n msg nk r = (r1, Err e) /\ r_done r1 = true).
+  Proof.
+    intros (Hw & Hp & Hi & Hd) Hge Hg.
+    pose proof (getN_lt _ _ _ Hg) as Hlt0. assert (Hlt : idx - nq < an + ns + ar) by lia.
+    destruct (P_record (idx - nq) it Hg) as (P1 & P2 & P3 & P4).
+    replace (nq + (idx - nq)) with idx in * by lia.
+    destruct (record_step nq an ns ar P Hc1 Hc2 Hc3 Hc4 P_bounds _ _ _ Hi Hge ltac:(unfold nrec, lin; cbn; lia)) as (tr1 & En & tr' & Es & Hi').
+    set (s := section_of (lin nq an ns ar) (idx - nq)) in *.
+    pose proof (marker_is_record_at msg (r_cur r) (P idx) s Hw) as Hm. rewrite Hp, P3 in Hm. destruct Hm as (Hm & M1 & M2 & M3).
+    assert (Hdata : a_type_off it + 10 + a_rdlen it <= lenN msg) by (rewrite P4 in M3; lia).
+    assert (Hmid : forall c0, whole msg c0 -> RMid (mkReader (c_set_pos c0 (a_type_off it + 10)) tr1 false) idx hw it).
+    { intros c0 Hw0. split; [apply whole_set_pos; exact Hw0|]. split; [reflexivity|]. split; [reflexivity|].
+      split; [rewrite P2, M2; reflexivity|]. split; [rewrite P2, M2; exact Hdata|]. exists tr'. split; [exact Es|exact Hi']. }
+    split; [|split; [|split]].
+    - eexists. split; [|apply (Hmid (r_cur r) Hw)].
+      unfold rd_marker, marker_impl, calc_section. rewrite Hd, Hp, En. unfold bind2, run, latch. cbn [with_tr r_cur r_tr r_done fst snd].
+      rewrite Hm. cbn [fst snd]. unfold with_cur, with_tr. cbn [r_cur r_tr r_done]. rewrite Hd. reflexivity.
+    - eexists. split; [|apply (Hmid (r_cur r) Hw)].
+      unfold rd_header_ref, header_ref_impl, calc_section. rewrite Hd, Hp, En. unfold bind2, run, latch. cbn [with_tr r_cur r_tr r_done fst snd].
+      unfold mbind, mret in Hm |- *. destruct (lift_c (skip_name msg) (r_cur r)) as [c1 x1]. destruct x1; try (inversion Hm; fail).
+      destruct (m_raw_marker msg (P idx) s c1) as [c2 x2]. destruct x2; inversion Hm; subst.
+      cbn [fst snd]. unfold with_cur, with_tr. cbn [r_cur r_tr r_done]. rewrite Hd. reflexivity.
+    - intros nk Hfits. pose proof (header_n_is_record_at msg nk (r_cur r) (P idx) s Hw) as Hn. rewrite Hp, P3, Hfits in Hn.
+      destruct Hn as (ls & e & Esn & Hn). eexists. exists ls, e. rewrite <- P1. split; [exact Esn|]. split; [|apply (Hmid (r_cur r) Hw)].
+      unfold rd_header_n, header_n_impl, calc_section. rewrite Hd, Hp, En. unfold bind2, run, latch. cbn [with_tr r_cur r_tr r_done fst snd].
+      rewrite Hn. cbn [fst snd]. unfold with_cur, with_tr. cbn [r_cur r_tr r_done]. rewrite Hd. reflexivity.
+    - intros nk Hfits. pose proof (header_n_is_record_at msg nk (r_cur r) (P idx) s Hw) as Hn. rewrite Hp, P3, Hfits in Hn.
+      destruct Hn as (c' & e & Hn). eexists. exists e.
+      unfold rd_header_n, header_n_impl, calc_section. rewrite Hd, Hp, En. unfold bind2, run, latch. cbn [with_tr r_cur r_tr r_done fst snd].
+      rewrite Hn. cbn [fst snd]. split; reflexivity.
+  Qed.
+
+  (* the data calls, given the marker of the header call, consume the record *)
+  Lemma step_data r1 idx hw it : RMid r1 idx hw it ->
+    (exists r2, rd_skip_data (mk_of idx it) r1 = (r2, Ok OUnit) /\ RState r2 (idx + 1) (N.max hw (idx + 1))) /\
+    (exists r2, rd_data_bytes msg (mk_of idx it) r1 =
+                  (r2, Ok (OBytes (a_type_off it + 10) (subN msg (a_type_off it + 10) (a_rdlen it)))) /\
+                RState r2 (idx + 1) (N.max hw (idx + 1))) /\
+    (a_type it = T_OPT ->
+     exists r2, rd_opt (mk_of idx it) r1 = (r2, Ok (OOpt (opt_from_msg (a_class it) (a_ttl it)))) /\
+                RState r2 (idx + 1) (N.max hw (idx + 1))) /\
+    (forall ty r2 x, read_rdata msg ty (a_rdlen it) <> None -> rd_data msg ty (mk_of idx it) r1 = (r2, x) ->
+       match x with
+       | Ok o => (exists d, o = ORData d) /\ RState r2 (idx + 1) (N.max hw (idx + 1))
+       | _ => r_done r2 = true
+       end).
+  Proof.
+    intros (Hw & Hp & Hd & Hend & Hin & tr' & Es & Hi'). pose proof Hw as [Hl Ho].
+    assert (Hpos : negb (pos (r_cur r1) =? rdata_pos (mk_of idx it)) = false).
+    { unfold rdata_pos, mk_of. cbn [m_type_off]. unfold TYPE_TO_RDATA_OFFSET. rewrite Hp, N.eqb_refl. reflexivity. }
+    assert (Hfinal : RState (with_tr (with_cur r1 (c_set_pos (r_cur r1) (P (idx + 1)))) tr') (idx + 1) (N.max hw (idx + 1))).
+    { split; [apply whole_set_pos; exact Hw|]. split; [reflexivity|]. split; [exact Hi'|exact Hd]. }
+    split; [|split; [|split]].
+    - eexists. split; [|exact Hfinal].
+      unfold rd_skip_data. rewrite Hpos, Hd. unfold skip_record_data_impl, after_data, run, mbind, mret, lift_c, lift.
+      cbn [mk_of m_rdlen m_section]. rewrite c_skip_fwd by lia. cbn [bind]. rewrite Hp, Hend. cbn [with_cur r_cur r_tr pos c_set_pos].
+      rewrite Es. reflexivity.
+    - eexists. split; [|exact Hfinal].
+      unfold rd_data_bytes. rewrite Hpos, Hd. unfold after_data, run, lift. cbn [mk_of m_rdlen m_section].
+      rewrite (c_slice_fwd msg (r_cur r1) (a_rdlen it) (whole_cwf msg _ Hw)) by lia. cbn [bind]. rewrite Hp, Hend.
+      cbn [with_cur r_cur r_tr pos c_set_pos]. rewrite Es. reflexivity.
+    - intro Ht. eexists. split; [|exact Hfinal].
+      unfold rd_opt. rewrite Hpos, Hd. cbn [mk_of m_rtype]. rewrite Ht, N.eqb_refl. cbn [negb].
+      unfold after_data, run, mbind, mret, lift_c, lift. cbn [mk_of m_rdlen m_section m_rclass m_ttl]. rewrite c_skip_fwd by lia. cbn [bind].
+      rewrite Hp, Hend. cbn [with_cur r_cur r_tr pos c_set_pos]. rewrite Es. reflexivity.
+    - intros ty r2 x Hty. unfold rd_data. cbn [mk_of m_rdlen]. destruct (read_rdata msg ty (a_rdlen it)) as [m|] eqn:Er; [|congruence].
+      fold (mk_of idx it). rewrite Hpos, Hd. unfold after_data, run, mbind, mret.
+      destruct (m (r_cur r1)) as [c2 y] eqn:Em. destruct y as [d| | | | |]; try (intro H; inversion H; subst; reflexivity).
+      destruct (read_rdata_exact msg ty _ m _ _ _ Er (whole_cwf msg _ Hw) Em) as (_ & X1 & X2 & X3 & _).
+      assert (Ec2 : c2 = c_set_pos (r_cur r1) (P (idx + 1))).
+      { destruct c2 as [l p o]. cbn [pos lim orig] in X1, X2, X3. subst l o. unfold c_set_pos. rewrite Ho. f_equal. lia. }
+      subst c2. cbn [with_cur r_cur r_tr pos c_set_pos mk_of m_section]. rewrite Es.
+      intro H; inversion H; subst. split; [eauto|exact Hfinal].
   Qed.
 
   (* ---------------------------------------------------------------- seek by skipping *)
@@ -731,6 +866,49 @@ Section W.
     known (lin nq an ns ar) (mkA idx hw false None) s = false ->
     0 < idx -> idx <= lenN qs + lenN rs -> rd_seek msg s r = (r, Err (RecordsSectionOffsetUnknown s)).
   Proof. intros. use step_seek_refused. Qed.
+
+  Theorem question_flavours_any : forall single as_ref r idx hw it,
+    RState msg nq an ns ar qs rs e2 r idx hw -> getN qs idx = Some it ->
+    (single = true -> idx + 1 = nq) -> (as_ref = false -> a_fits255 it = true) ->
+    exists r' o, rd_question msg single as_ref r = (r', Ok o) /\ RState msg nq an ns ar qs rs e2 r' (idx + 1) (idx + 1) /\
+      if as_ref then o = OQuestionRef (r_cur r) (a_type it) (a_class it)
+      else exists ls e, spec_name msg (a_start it) = SAccept ls e /\ o = OQuestion (join_labels (map snd ls)) (a_type it) (a_class it).
+  Proof. intros. use step_question_any. Qed.
+
+  Theorem owned_question_too_long_any : forall single r idx hw it,
+    RState msg nq an ns ar qs rs e2 r idx hw -> getN qs idx = Some it ->
+    (single = true -> idx + 1 = nq) -> a_fits255 it = false ->
+    exists r' e, rd_question msg single false r = (r', Err e) /\ r_done r' = true.
+  Proof. intros. use fail_question_owned. Qed.
+
+  Theorem header_flavours_any : forall r idx hw it,
+    RState msg nq an ns ar qs rs e2 r idx hw -> nq <= idx -> getN rs (idx - nq) = Some it ->
+    let mk := mk_of nq an ns ar qs rs e2 idx it in
+    (exists r1, rd_marker msg r = (r1, Ok (OMarker mk)) /\ RMid msg nq an ns ar qs rs e2 r1 idx hw it) /\
+    (exists r1, rd_header_ref msg r = (r1, Ok (OHeaderRef (r_cur r) mk)) /\ RMid msg nq an ns ar qs rs e2 r1 idx hw it) /\
+    (forall nk, a_fits255 it = true ->
+       exists r1 ls e, spec_name msg (a_start it) = SAccept ls e /\
+         rd_header_n msg nk r = (r1, Ok (OHeaderN (join_labels (map snd ls)) mk)) /\ RMid msg nq an ns ar qs rs e2 r1 idx hw it) /\
+    (forall nk, a_fits255 it = false -> exists r1 e, rd_header_n msg nk r = (r1, Err e) /\ r_done r1 = true).
+  Proof. intros. cbv zeta. use step_header. Qed.
+
+  Theorem data_flavours_any : forall r1 idx hw it, RMid msg nq an ns ar qs rs e2 r1 idx hw it ->
+    let mk := mk_of nq an ns ar qs rs e2 idx it in
+    (exists r2, rd_skip_data mk r1 = (r2, Ok OUnit) /\ RState msg nq an ns ar qs rs e2 r2 (idx + 1) (N.max hw (idx + 1))) /\
+    (exists r2, rd_data_bytes msg mk r1 = (r2, Ok (OBytes (a_type_off it + 10) (subN msg (a_type_off it + 10) (a_rdlen it)))) /\
+                RState msg nq an ns ar qs rs e2 r2 (idx + 1) (N.max hw (idx + 1))) /\
+    (a_type it = T_OPT ->
+     exists r2, rd_opt mk r1 = (r2, Ok (OOpt (opt_from_msg (a_class it) (a_ttl it)))) /\
+                RState msg nq an ns ar qs rs e2 r2 (idx + 1) (N.max hw (idx + 1))) /\
+    (forall ty r2 x, read_rdata msg ty (a_rdlen it) <> None -> rd_data msg ty mk r1 = (r2, x) ->
+       match x with
+       | Ok o => (exists d, o = ORData d) /\ RState msg nq an ns ar qs rs e2 r2 (idx + 1) (N.max hw (idx + 1))
+       | _ => r_done r2 = true
+       end).
+  Proof.
+    intros. cbv zeta. destruct Hp as (A1 & A2 & A3 & A4 & A5 & A6 & A7 & A8 & A9 & A10 & A11).
+    eapply (step_data msg A1 A2 nq an ns ar qs rs e2 A5 A6 A7 A8 A9 A10 A11); eassumption.
+  Qed.
 End W.
 
 Theorem linear_parsed msg l : linear_of msg = Some l ->
